@@ -76,6 +76,9 @@ FIXES = [
     ('46-C16-readspec-loglam-over-padded-width.patch', 'C16', 'C16.LOGLAM-PAD'),
     ('47-C12-is_in_polygon-one-cap-rows.patch', 'C12', 'C12.ONE-CAP'),
     ('48-C02-get_token-blanks-before-closing-brace.patch', 'C02', 'C02.BRACE-TRIM'),
+    ('49-C08-bspline-explicit-breakpoints-floating-copy.patch', 'C08', 'C08.COVER'),
+    ('50-C08-everyn-at-least-two-breakpoints.patch', 'C08', 'C08.NBKPT'),
+    ('51-C11-iterfit-requiren-counts-last-point.patch', 'C11', 'C10.REQUIREN'),
 ]
 
 
